@@ -103,6 +103,8 @@ def build(case, provider, alarm_ack, comp_ack, snooze):
         lines = ["BEGIN:VEVENT", "UID:verif-c15", R.prop_line("DTSTART", start)]
         if case.get("decoy_dtstamp"):
             lines.append("DTSTAMP:20300101T000000Z")
+        if case.get("decoy_other"):      # time stamps that are no acknowledgement
+            lines += ["LAST-MODIFIED:20300101T000000Z", "CREATED:20300101T000000Z"]
         if comp_ack is not None:
             lines.append(f"X-MOZ-LASTACK:{R.fmt_dt(utc_list(comp_ack), True)}")
         if snooze is not None:
@@ -153,6 +155,9 @@ def build(case, provider, alarm_ack, comp_ack, snooze):
         return A
     ev.start = _start(case, start, provider)
     ev.add_component(al)
+    if case.get("decoy_other"):          # time stamps that are no acknowledgement: LAST-MODIFIED, CREATED (far in the future)
+        ev.LAST_MODIFIED = datetime(2030, 1, 1, tzinfo=UTC)
+        ev.add("CREATED", datetime(2030, 1, 1, tzinfo=UTC))
     if mode == "dtstamp":
         if comp_ack is not None:
             ev.DTSTAMP = comp_ack
@@ -463,7 +468,7 @@ def _rows():
                             for local in (False, True):
                                 i = len(rows)
                                 rows.append({"provider": provider, "tkind": k, "mode": mode, "alarm_ack": a, "comp_ack": c, "snooze": s,
-                                             "local_tz": local, "decoy_dtstamp": bool((a or 0) % 2 == 0) and mode.startswith("moz"),
+                                             "local_tz": local, "decoy_dtstamp": bool((a or 0) % 2 == 0) and mode.startswith("moz"), "decoy_other": len(rows) % 3 == 0,
                                              "local_src": ["str", "zoneinfo", "pytz"][i % 3], "prime": [None, "plain", "snooze-last", "ack-last"][(i // 3) % 4],
                                              "moz_marker": MARKERS[(i // 5) % len(MARKERS)],
                                              "refused": [None, None, "acknowledged-far-later", "acknowledged-long-ago", "thunderbird", "incomplete"][(i // 7) % 6] if mode in ("dtstamp", "moz") else None})
@@ -483,7 +488,7 @@ def _whole_seconds_in_text(case):
 def _hyp():
     return st.fixed_dictionaries({
         "provider": st.sampled_from(["zoneinfo", "pytz"]), "tkind": st.sampled_from(KINDS), "mode": st.sampled_from(MODES[1:]),
-        "alarm_ack": _off, "comp_ack": _off, "snooze": _off, "local_tz": st.booleans(), "decoy_dtstamp": st.booleans(),
+        "alarm_ack": _off, "comp_ack": _off, "snooze": _off, "local_tz": st.booleans(), "decoy_dtstamp": st.booleans(), "decoy_other": st.booleans(),
         "local_src": st.sampled_from(["str", "zoneinfo", "pytz"]), "prime": st.sampled_from([None, "plain", "snooze-last", "ack-last"]),
         "moz_marker": st.sampled_from(MARKERS),
         "comp": st.sampled_from(["Event", "Todo"]), "later_by": st.integers(1, 10 ** 6),
